@@ -1,20 +1,20 @@
-(** Proofs about Hist/Reuse.v (property C18).
+(** Proofs about Hist/Reuse.v (property C18), for the code after /repo commit 88b3d0f
+    ([_create] works on private copies of the constraint objects it is given).
 
-    [reuse_refuted]: the summary of a block built after another block that shares a
-    constraint object differs from the summary of its twin built from fresh objects
-    (the set-if-None write of [init_within_block] keeps the first geometry).
+    [build_never_writes]: a construction never writes an object that existed before it
+    (the store only grows); in particular the user's objects stay as they were created.
 
-    [history_independent_guarded]: if every constraint object that has a
-    [within_block] is handed (directly) only to constructions of one and the same
-    geometry, then for every build sequence and every dependency-closed set [keep]
-    of blocks, each kept block gets the same summary whether the whole sequence is
-    built on the shared store or only the kept blocks are built (fresh twin). *)
+    [history_independent]: for every build sequence and every dependency-closed set [keep]
+    of blocks, each kept block gets the same summary whether the whole sequence is built on
+    the shared store or only the kept blocks are built (fresh twin) - without any condition
+    on how constraint objects are shared.
+
+    [old_witness_independent]: the program that refuted this statement for the code before
+    the repair (one AtMostKInARow object in a 2-trial and a 4-trial CrossBlock). *)
 From Coq Require Import ZArith List Bool Arith Lia.
 From SP Require Import Hist.Reuse.
 Import ListNotations.
 Open Scope Z_scope.
-
-(* ------------------------------------------------------------------ the refutation *)
 
 Definition wit_g2 : geom := {| g_trials := 2; g_preamble := 0; g_sustain := [(0, 1)] |}.
 Definition wit_g4 : geom := {| g_trials := 4; g_preamble := 0; g_sustain := [(0, 1); (1, 1)] |}.
@@ -25,15 +25,16 @@ Definition wit_prog : list desc :=
   [ {| d_kind := DLeaf; d_geom := wit_g2; d_cs := [0%nat]; d_copied := [false] |};
     {| d_kind := DLeaf; d_geom := wit_g4; d_cs := [0%nat]; d_copied := [false] |} ].
 
-Lemma reuse_refuted :
-  exists (user : list cobj) (ds : list desc) (i : nat),
-    wf (List.length user) ds = true /\ closed (keep_of ds i) ds = true /\
-    shared_summary user ds i = Some [(KAtMost, Some wit_g2, 1, 0)] /\
-    fresh_summary user ds i = Some [(KAtMost, Some wit_g4, 1, 0)] /\
-    shared_summary user ds i <> fresh_summary user ds i.
-Proof.
-  exists wit_user, wit_prog, 1%nat. vm_compute. repeat split; try reflexivity. discriminate.
-Qed.
+Lemma old_witness_independent :
+  wf (List.length wit_user) wit_prog = true /\ closed (keep_of wit_prog 1) wit_prog = true /\
+  shared_summary wit_user wit_prog 0 = Some [(KAtMost, Some wit_g2, 1, 0)] /\
+  shared_summary wit_user wit_prog 1 = Some [(KAtMost, Some wit_g4, 1, 0)] /\
+  fresh_summary wit_user wit_prog 1 = Some [(KAtMost, Some wit_g4, 1, 0)] /\
+  store_list (fst (run (init_state wit_user) wit_prog)) =
+    [ {| c_kind := KAtMost; c_within := None; c_k := 1; c_trials := 0; c_mtr := None |};
+      {| c_kind := KAtMost; c_within := Some wit_g2; c_k := 1; c_trials := 0; c_mtr := None |};
+      {| c_kind := KAtMost; c_within := Some wit_g4; c_k := 1; c_trials := 0; c_mtr := None |} ].
+Proof. vm_compute. repeat split; reflexivity. Qed.
 
 Lemma Forall2_impl_in : forall {A B} (P Q : A -> B -> Prop) (l : list A) (l' : list B),
   (forall a b, In a l -> In b l' -> P a b -> Q a b) -> Forall2 P l l' -> Forall2 Q l l'.
@@ -93,31 +94,12 @@ Proof.
   destruct (init1_fields f i g id) as [A' [B' C']]. rewrite A, B, C; auto.
 Qed.
 
-(** an object whose geometry is set (or that has none) is not touched by [init_within_block] *)
-Definition settled_obj (o : cobj) : Prop := has_within (c_kind o) = true -> c_within o <> None.
 
-Lemma init_within_settled_id : forall o g, settled_obj o -> init_within_block o g = o.
+Lemma init_within_idem : forall o g, init_within_block (init_within_block o g) g = init_within_block o g.
 Proof.
-  intros o g H; unfold init_within_block. destruct (has_within (c_kind o)) eqn:E; [| reflexivity].
-  destruct (c_within o) eqn:W; [reflexivity |]. exfalso; apply (H E); exact W.
-Qed.
-
-Lemma init_within_settles : forall o g, settled_obj (init_within_block o g).
-Proof.
-  intros o g; unfold init_within_block, settled_obj.
-  destruct (has_within (c_kind o)) eqn:E.
-  - destruct (c_within o) eqn:W; cbn; intros _; [rewrite W |]; discriminate.
-  - intro H; rewrite E in H; discriminate.
-Qed.
-
-Lemma init_all_within_settled : forall all f g id, settled_obj (f id) -> c_within (init_all f all g id) = c_within (f id).
-Proof.
-  induction all as [| i r IH]; intros f g id H; [reflexivity |].
-  rewrite init_all_cons.
-  assert (E : init1 f i g id = f id).
-  { unfold init1, upd. destruct (Nat.eqb id i) eqn:E; [| reflexivity].
-    apply Nat.eqb_eq in E; subst. apply init_within_settled_id; exact H. }
-  rewrite IH; rewrite E; auto.
+  intros o g; unfold init_within_block.
+  destruct (has_within (c_kind o)) eqn:E; [| rewrite E; reflexivity].
+  destruct (c_within o) eqn:W; cbn; rewrite E; [rewrite W |]; reflexivity.
 Qed.
 
 Lemma init_all_notin : forall all f g id, ~ In id all -> init_all f all g id = f id.
@@ -127,28 +109,24 @@ Proof.
   unfold init1. apply upd_other. intro; subst; apply H; left; reflexivity.
 Qed.
 
-Lemma init_all_in_settles : forall all f g id, In id all -> settled_obj (init_all f all g id).
+
+Lemma init_all_in : forall all f g id, In id all -> init_all f all g id = init_within_block (f id) g.
 Proof.
   induction all as [| i r IH]; intros f g id H; [destruct H |].
   rewrite init_all_cons. destruct (in_dec Nat.eq_dec id r) as [Hr | Hr].
-  - apply IH; exact Hr.
+  - rewrite IH by exact Hr. unfold init1, upd. destruct (Nat.eqb id i) eqn:E; [| reflexivity].
+    apply Nat.eqb_eq in E; subst. apply init_within_idem.
   - rewrite init_all_notin by exact Hr. destruct H as [-> | H]; [| contradiction].
-    unfold init1. rewrite upd_same. apply init_within_settles.
+    unfold init1. apply upd_same.
 Qed.
 
-(** an unsettled object of the list gets exactly the geometry of the block *)
-Lemma init_all_in_unsettled : forall all f g id, In id all -> has_within (c_kind (f id)) = true -> c_within (f id) = None ->
-  c_within (init_all f all g id) = Some g.
+Lemma write_mtr_notin : forall all f cp t id, ~ In id all -> write_mtr f all cp t id = f id.
 Proof.
-  induction all as [| i r IH]; intros f g id H K W; [destruct H |].
-  rewrite init_all_cons.
-  destruct (Nat.eq_dec id i) as [-> | Hne].
-  - assert (S1 : c_within (init1 f i g i) = Some g).
-    { unfold init1. rewrite upd_same. unfold init_within_block. rewrite K, W. reflexivity. }
-    rewrite init_all_within_settled; [exact S1 |].
-    intros _. rewrite S1; discriminate.
-  - destruct H as [H | H]; [congruence |].
-    apply IH; [exact H | |]; unfold init1; rewrite upd_other by exact Hne; assumption.
+  induction all as [| i r IH]; intros f cp t id H; cbn; [reflexivity |].
+  rewrite IH by (intro; apply H; right; assumption).
+  destruct (c_kind (f i)); try reflexivity.
+  destruct (match cp with [] => false | b :: _ => b end); [reflexivity |].
+  apply upd_other. intro; subst; apply H; left; reflexivity.
 Qed.
 
 Lemma view_eq_fields : forall a b, c_kind a = c_kind b -> c_within a = c_within b -> c_k a = c_k b -> c_trials a = c_trials b ->
@@ -159,17 +137,14 @@ Lemma view_inv : forall a b, view a = view b ->
   c_kind a = c_kind b /\ c_within a = c_within b /\ c_k a = c_k b /\ c_trials a = c_trials b.
 Proof. intros a b H; unfold view in H; inversion H; auto. Qed.
 
-Lemma settled_view : forall a b, view a = view b -> settled_obj a -> settled_obj b.
-Proof. intros a b H S; destruct (view_inv _ _ H) as [K [W _]]; unfold settled_obj in *; rewrite <- K, <- W; exact S. Qed.
 
-(** [init_all] leaves the view of a settled object alone *)
-Lemma init_all_view_settled : forall all f g id, settled_obj (f id) -> view (init_all f all g id) = view (f id).
+Lemma init_within_view : forall a b g, view a = view b -> view (init_within_block a g) = view (init_within_block b g).
 Proof.
-  intros all f g id H. destruct (init_all_fields all f g id) as [A [B C]].
-  apply view_eq_fields; auto. apply init_all_within_settled; exact H.
+  intros a b g H; destruct (view_inv _ _ H) as [K [W [Kk T]]].
+  unfold init_within_block. rewrite <- K, <- W.
+  destruct (has_within (c_kind a)); [destruct (c_within a) |]; try exact H;
+    apply view_eq_fields; cbn; congruence.
 Qed.
-
-(* ------------------------------------------------------------------ copies *)
 
 Lemma sustain_view : forall a b n, view a = view b ->
   match sustain_within_block a n, sustain_within_block b n with
@@ -184,25 +159,6 @@ Proof.
     apply view_eq_fields; cbn; congruence.
 Qed.
 
-Lemma sustain_settled : forall a n a', settled_obj a -> sustain_within_block a n = Some a' -> settled_obj a'.
-Proof.
-  intros a n a' S H; unfold sustain_within_block in H. unfold settled_obj in *.
-  destruct (c_kind a) eqn:K; cbn in S;
-    try (destruct (c_within a) eqn:W; [| try discriminate H]);
-    injection H as <-; intro Hw; cbn in Hw |- *; rewrite ?K in Hw; cbn in Hw;
-    try discriminate Hw; try discriminate; try (rewrite W; discriminate);
-    try (apply S; reflexivity).
-  exfalso. apply (S eq_refl). reflexivity.
-Qed.
-
-Lemma sustain_some_of_settled : forall a n, settled_obj a -> sustain_within_block a n <> None.
-Proof.
-  intros a n S; unfold sustain_within_block, settled_obj in *.
-  destruct (c_kind a) eqn:K; cbn in S; destruct (c_within a) eqn:W; try discriminate;
-    exfalso; apply (S eq_refl); reflexivity.
-Qed.
-
-(** what [copy_sustain] does: new objects at [nx, nx + length ids), old ones untouched *)
 Lemma copy_sustain_spec : forall ids f nx n f' nx' l,
   Forall (fun i => (i < nx)%nat) ids ->
   copy_sustain f nx ids n = Some (f', nx', l) ->
@@ -228,39 +184,67 @@ Proof.
         assert ((a < nx)%nat) by (rewrite Forall_forall in Hr; apply Hr; exact Ha). lia.
 Qed.
 
+
+(** what [copy_all] does: new objects at [nx, nx + length ids) equal to the originals, old ones untouched *)
+Lemma copy_all_spec : forall ids f nx f' nx' l,
+  Forall (fun i => (i < nx)%nat) ids ->
+  copy_all f nx ids = (f', nx', l) ->
+  nx' = (nx + List.length ids)%nat /\ l = seq nx (List.length ids) /\
+  (forall id, (id < nx)%nat -> f' id = f id) /\
+  Forall2 (fun i c => f' c = f i) ids l.
+Proof.
+  induction ids as [| i r IH]; intros f nx f' nx' l Hlt H; cbn in H.
+  - inversion H; subst. repeat split; auto; try (cbn; lia); try constructor.
+  - destruct (copy_all (upd f nx (f i)) (S nx) r) as [[f2 nx2] l2] eqn:C.
+    inversion H; subst; clear H. inversion Hlt as [| ? ? Hi Hr]; subst.
+    destruct (IH (upd f nx (f i)) (S nx) f' nx' l2) as [A [B [Cc D]]]; auto.
+    { eapply Forall_impl; [| exact Hr]. cbn; intros; lia. }
+    repeat split.
+    + cbn; lia.
+    + cbn. rewrite B. reflexivity.
+    + intros id Hid. rewrite Cc by lia. apply upd_other; lia.
+    + constructor.
+      * rewrite Cc by lia. apply upd_same.
+      * eapply Forall2_impl_in; [| exact D]. intros a b Ha Hb Hs. cbn in Hs.
+        rewrite upd_other in Hs; [exact Hs |].
+        assert ((a < nx)%nat) by (rewrite Forall_forall in Hr; apply Hr; exact Ha). lia.
+Qed.
+
+(** transport of a pointwise relation along two other pointwise relations *)
+Lemma Forall2_transport : forall {A B C D} (P : A -> B -> Prop) (R1 : A -> C -> Prop) (R2 : B -> D -> Prop)
+  (Q : C -> D -> Prop) la lb lc ld,
+  (forall a b c d, P a b -> R1 a c -> R2 b d -> Q c d) ->
+  Forall2 P la lb -> Forall2 R1 la lc -> Forall2 R2 lb ld -> Forall2 Q lc ld.
+Proof.
+  intros A B C D P R1 R2 Q la lb lc ld H HP; revert lc ld.
+  induction HP as [| a b ra rb Hab Hr IH]; intros lc ld H1 H2; inversion H1; subst; inversion H2; subst; constructor.
+  - eapply H; eauto.
+  - apply IH; assumption.
+Qed.
+
 (* ------------------------------------------------------------------ invariants of one run *)
 
-Section Guarded.
+Section Independent.
   Variable user : list cobj.
-  Variable gc : nat -> geom.           (* the one geometry a user object with [within_block] is handed to *)
   Let n := List.length user.
 
   Definition uobj (c : nat) : cobj := nth c user default_obj.
 
-  (** the fields of the user objects other than [within_block] / [max_trials_required] never change;
-      [within_block] is unset or the object's one geometry *)
-  Definition user_ok (s : state) : Prop :=
-    forall c, (c < n)%nat ->
-      c_kind (objs s c) = c_kind (uobj c) /\ c_k (objs s c) = c_k (uobj c) /\ c_trials (objs s c) = c_trials (uobj c) /\
-      (c_within (objs s c) = None \/ (has_within (c_kind (uobj c)) = true /\ c_within (objs s c) = Some (gc c))).
+  (** the user's objects are as they were created *)
+  Definition user_ok (s : state) : Prop := forall c, (c < n)%nat -> objs s c = fresh (uobj c).
 
-  Definition settled (s : state) (id : nat) : Prop := settled_obj (objs s id).
-
-  (** every [orig_constraints] list holds existing, settled objects *)
+  (** every [orig_constraints] list holds existing objects *)
   Definition env_ok (s : state) : Prop :=
-    forall b l, orig_of (env s) b = Some l -> Forall (settled s) l /\ Forall (fun id => (id < next s)%nat) l.
+    forall b l, orig_of (env s) b = Some l -> Forall (fun id => (id < next s)%nat) l.
 
   Definition good (s : state) : Prop := (n <= next s)%nat /\ user_ok s /\ env_ok s.
 
-  (** the guard for one construction *)
-  Definition desc_ok (d : desc) : Prop :=
-    Forall (fun c => (c < n)%nat) (d_cs d) /\
-    Forall (fun c => has_within (c_kind (uobj c)) = true -> d_geom d = gc c) (d_cs d).
+  Definition desc_ok (d : desc) : Prop := Forall (fun c => (c < n)%nat) (d_cs d).
 
   Lemma good_init : good (init_state user).
   Proof.
     split; [cbn; unfold n; lia |]. split.
-    - intros c Hc; cbn. repeat split; auto.
+    - intros c Hc; reflexivity.
     - intros b l H. unfold orig_of in H; cbn in H. destruct b; discriminate.
   Qed.
 
@@ -287,125 +271,104 @@ Section Guarded.
       assert (b = List.length e) by lia. subst. rewrite orig_of_app_new in H. auto.
   Qed.
 
+
   Lemma origs_of_ok : forall s bs l, env_ok s -> origs_of (env s) bs = Some l ->
-    Forall (settled s) l /\ Forall (fun id => (id < next s)%nat) l.
+    Forall (fun id => (id < next s)%nat) l.
   Proof.
     intros s bs; induction bs as [| b r IH]; intros l He H; cbn in H.
-    - inversion H; subst; split; constructor.
+    - inversion H; subst; constructor.
     - destruct (orig_of (env s) b) as [lb |] eqn:E1; [| discriminate].
       destruct (origs_of (env s) r) as [lr |] eqn:E2; [| discriminate].
-      inversion H; subst. destruct (He _ _ E1) as [A B]. destruct (IH _ He eq_refl) as [C D].
-      split; apply Forall_app; auto.
+      inversion H; subst. apply Forall_app; split; [apply (He _ _ E1) | apply IH; auto].
   Qed.
 
-  (** the combined list of a construction: the new store agrees with the old one below [next],
-      the inherited entries and the copies are settled, the rest are the user's [d_cs] *)
-  Lemma gather_spec : forall s d f nx all, good s -> desc_ok d -> gather s d = Some (f, nx, all) ->
+  (** the list handed to [_create]: existing objects, the store unchanged below [next] *)
+  Lemma gather_spec : forall s d f nx given, good s -> desc_ok d -> gather s d = Some (f, nx, given) ->
     (next s <= nx)%nat /\ (forall id, (id < next s)%nat -> f id = objs s id) /\
-    Forall (fun id => (id < nx)%nat) all /\
-    exists inh, (all = inh ++ d_cs d \/ all = d_cs d ++ inh) /\ Forall (fun id => settled_obj (f id)) inh.
+    Forall (fun id => (id < nx)%nat) given.
   Proof.
-    intros s d f nx all [Hn [Hu He]] [Hcs _] H. unfold gather in H.
+    intros s d f nx given [Hn [Hu He]] Hcs H. unfold gather in H.
     assert (Hcs' : Forall (fun id => (id < next s)%nat) (d_cs d)).
     { eapply Forall_impl; [| exact Hcs]. cbn; intros; lia. }
     destruct (d_kind d) as [| i | bs | o i k |].
-    - inversion H; subst. repeat split; auto. exists []. split; [left; reflexivity | constructor].
+    - inversion H; subst. repeat split; auto.
     - destruct (orig_of (env s) i) as [l |] eqn:E; [| discriminate]. inversion H; subst.
-      destruct (He _ _ E) as [A B]. repeat split; auto; [apply Forall_app; auto |].
-      exists l; split; [left; reflexivity | exact A].
+      repeat split; auto. apply Forall_app; split; [apply (He _ _ E) | exact Hcs'].
     - destruct (origs_of (env s) bs) as [l |] eqn:E; [| discriminate]. inversion H; subst.
-      destruct (origs_of_ok _ _ _ He E) as [A B]. repeat split; auto; [apply Forall_app; auto |].
-      exists l; split; [right; reflexivity | exact A].
+      repeat split; auto. apply Forall_app; split; [exact Hcs' | apply (origs_of_ok _ _ _ He E)].
     - destruct (orig_of (env s) o) as [lo |] eqn:Eo; [| discriminate].
       destruct (orig_of (env s) i) as [li |] eqn:Ei; [| discriminate].
       destruct (copy_sustain (objs s) (next s) lo k) as [[[f1 nx1] copies] |] eqn:C; [| discriminate].
       inversion H; subst; clear H.
-      destruct (He _ _ Eo) as [Ao Bo]. destruct (He _ _ Ei) as [Ai Bi].
-      destruct (copy_sustain_spec _ _ _ _ _ _ _ Bo C) as [N1 [L1 [F1 S1]]].
+      destruct (copy_sustain_spec _ _ _ _ _ _ _ (He _ _ Eo) C) as [N1 [L1 [F1 S1]]].
       repeat split.
       + lia.
       + exact F1.
       + apply Forall_app; split; [| apply Forall_app; split].
         * subst copies. apply Forall_forall. intros x Hx. apply in_seq in Hx. lia.
-        * eapply Forall_impl; [| exact Bi]. cbn; intros; lia.
+        * eapply Forall_impl; [| exact (He _ _ Ei)]. cbn; intros; lia.
         * eapply Forall_impl; [| exact Hcs']. cbn; intros; lia.
-      + exists (copies ++ li). split; [left; rewrite app_assoc; reflexivity |].
-        apply Forall_app; split.
-        * clear - Ao S1. induction S1 as [| a c ra rc Hs Hr IH]; [constructor |].
-          inversion Ao; subst. constructor; [| apply IH; assumption].
-          eapply sustain_settled; [| exact Hs]. assumption.
-        * rewrite Forall_forall in *. intros x Hx. rewrite F1 by (apply Bi; exact Hx). apply Ai; exact Hx.
     - discriminate.
+  Qed.
+
+  (** the shape of a successful construction *)
+  Lemma build_some : forall s d f nx given f0 nx0 all, gather s d = Some (f, nx, given) -> copy_all f nx given = (f0, nx0, all) ->
+    build s d = ({| objs := init_all (write_mtr f0 all (d_copied d) (g_trials (d_geom d))) all (d_geom d);
+                    next := nx0; env := env s ++ [Some all] |},
+                 Some (map (fun i => view (init_all (write_mtr f0 all (d_copied d) (g_trials (d_geom d))) all (d_geom d) i)) all)).
+  Proof. intros s d f nx given f0 nx0 all G C. unfold build. rewrite G, C. reflexivity. Qed.
+
+  Lemma build_none : forall s d, gather s d = None ->
+    build s d = ({| objs := objs s; next := next s; env := env s ++ [None] |}, None).
+  Proof. intros s d G. unfold build. rewrite G. reflexivity. Qed.
+
+  (** a construction never writes an object that existed before: the store only grows *)
+  Lemma build_never_writes : forall s d id, good s -> desc_ok d -> (id < next s)%nat ->
+    objs (fst (build s d)) id = objs s id.
+  Proof.
+    intros s d id G D Hid.
+    destruct (gather s d) as [[[f nx] given] |] eqn:Ga; [| rewrite (build_none _ _ Ga); reflexivity].
+    destruct (gather_spec _ _ _ _ _ G D Ga) as [Hnx [Hf Hgiven]].
+    destruct (copy_all f nx given) as [[f0 nx0] all] eqn:C.
+    destruct (copy_all_spec _ _ _ _ _ _ Hgiven C) as [N0 [L0 [F0 _]]].
+    rewrite (build_some _ _ _ _ _ _ _ _ Ga C). cbn [fst objs].
+    assert (Hni : ~ In id all). { subst all. intro Hx. apply in_seq in Hx. lia. }
+    rewrite init_all_notin, write_mtr_notin by exact Hni. rewrite F0 by lia. apply Hf; exact Hid.
+  Qed.
+
+  Lemma build_next : forall s d, good s -> desc_ok d -> (next s <= next (fst (build s d)))%nat.
+  Proof.
+    intros s d G D.
+    destruct (gather s d) as [[[f nx] given] |] eqn:Ga; [| rewrite (build_none _ _ Ga); cbn; lia].
+    destruct (gather_spec _ _ _ _ _ G D Ga) as [Hnx [Hf Hgiven]].
+    destruct (copy_all f nx given) as [[f0 nx0] all] eqn:C.
+    destruct (copy_all_spec _ _ _ _ _ _ Hgiven C) as [N0 _].
+    rewrite (build_some _ _ _ _ _ _ _ _ Ga C). cbn. lia.
+  Qed.
+
+  Lemma build_env : forall s d, exists x, env (fst (build s d)) = env s ++ [x].
+  Proof.
+    intros s d. unfold build. destruct (gather s d) as [[[f nx] given] |]; [| cbn; eauto].
+    destruct (copy_all f nx given) as [[f0 nx0] all]. cbn; eauto.
   Qed.
 
   Lemma build_good : forall s d, good s -> desc_ok d -> good (fst (build s d)).
   Proof.
-    intros s d G D. unfold build.
-    destruct (gather s d) as [[[f nx] all] |] eqn:Ga.
-    - destruct (gather_spec _ _ _ _ _ G D Ga) as [Hnx [Hf [Hall [inh [Hsplit Hinh]]]]].
-      destruct G as [Hn [Hu He]]. destruct D as [Hcs Hgc]. cbn [fst].
-      set (f1 := write_mtr f all (d_copied d) (g_trials (d_geom d))).
-      set (f2 := init_all f1 all (d_geom d)).
-      assert (V1 : forall id, view (f1 id) = view (f id)) by (intro; apply write_mtr_view).
-      assert (Fld : forall id, c_kind (f2 id) = c_kind (f id) /\ c_k (f2 id) = c_k (f id) /\ c_trials (f2 id) = c_trials (f id)).
-      { intro id. destruct (init_all_fields all f1 (d_geom d) id) as [A [B C]].
-        destruct (view_inv _ _ (V1 id)) as [A' [_ [B' C']]]. unfold f2. rewrite A, B, C; auto. }
-      assert (Inall : forall id, In id all -> In id inh \/ In id (d_cs d)).
-      { intros id Hi. destruct Hsplit as [-> | ->]; apply in_app_or in Hi; tauto. }
-      split; [cbn; lia |]. split.
-      + (* user objects *)
-        intros c Hc. cbn [objs]. destruct (Fld c) as [A [B C]]. rewrite A, B, C.
-        rewrite Hf by lia. destruct (Hu c Hc) as [K [Kk [T W]]]. repeat split; auto.
-        destruct W as [W | W].
-        * (* unset so far *)
-          destruct (in_dec Nat.eq_dec c all) as [Hi | Hi].
-          -- destruct (has_within (c_kind (uobj c))) eqn:Hw.
-             ++ right; split; [reflexivity |].
-                assert (Hu1 : c_within (f1 c) = None).
-                { destruct (view_inv _ _ (V1 c)) as [_ [W1 _]]. rewrite W1, Hf by lia. exact W. }
-                assert (Hk1 : has_within (c_kind (f1 c)) = true).
-                { destruct (view_inv _ _ (V1 c)) as [K1 _]. rewrite K1, Hf by lia. rewrite K; exact Hw. }
-                unfold f2. rewrite (init_all_in_unsettled all f1 (d_geom d) c Hi Hk1 Hu1).
-                f_equal. destruct (Inall c Hi) as [Hin | Hin].
-                ** (* an inherited entry is settled: contradiction with unset *)
-                   exfalso. rewrite Forall_forall in Hinh. specialize (Hinh c Hin).
-                   unfold settled_obj in Hinh. rewrite Hf in Hinh by lia. rewrite K in Hinh. apply (Hinh Hw). exact W.
-                ** rewrite Forall_forall in Hgc. apply Hgc; assumption.
-             ++ left. unfold f2. rewrite init_all_within_settled.
-                ** destruct (view_inv _ _ (V1 c)) as [_ [W1 _]]. rewrite W1, Hf by lia. exact W.
-                ** intro Hk. destruct (view_inv _ _ (V1 c)) as [K1 _]. rewrite K1, Hf in Hk by lia. rewrite K in Hk. congruence.
-          -- left. unfold f2. rewrite init_all_notin by exact Hi.
-             destruct (view_inv _ _ (V1 c)) as [_ [W1 _]]. rewrite W1, Hf by lia. exact W.
-        * right. destruct W as [Hw W]. split; [exact Hw |]. unfold f2. rewrite init_all_within_settled.
-          -- destruct (view_inv _ _ (V1 c)) as [_ [W1 _]]. rewrite W1, Hf by lia. exact W.
-          -- intros _. destruct (view_inv _ _ (V1 c)) as [_ [W1 _]]. rewrite W1, Hf by lia. rewrite W; discriminate.
-      + (* env *)
-        intros b l Hb. cbn [env objs next] in *.
-        destruct (orig_of_app_cases _ _ _ _ Hb) as [[Hlt Ho] | [-> Hx]].
-        * destruct (He _ _ Ho) as [A B]. split.
-          -- rewrite Forall_forall in *. intros x Hx. unfold settled; cbn [objs].
-             assert (Sx : settled_obj (f1 x)).
-             { eapply settled_view; [symmetry; apply V1 |]. rewrite Hf by (apply B; exact Hx). apply A; exact Hx. }
-             eapply settled_view; [symmetry; apply init_all_view_settled; exact Sx | exact Sx].
-          -- eapply Forall_impl; [| exact B]. cbn; intros; lia.
-        * inversion Hx; subst l. split; [| exact Hall].
-          rewrite Forall_forall. intros x Hx'. unfold settled; cbn [objs]. apply init_all_in_settles; exact Hx'.
-    - cbn [fst]. destruct G as [Hn [Hu He]]. split; [exact Hn |]. split; [exact Hu |].
-      intros b l Hb. cbn [env] in Hb.
-      destruct (orig_of_app_cases _ _ _ _ Hb) as [[Hlt Ho] | [_ Hx]]; [| discriminate].
-      apply He in Ho. exact Ho.
-  Qed.
-
-  (** objects that existed and were settled keep their view through a construction *)
-  Lemma build_frame : forall s d id, good s -> desc_ok d -> (id < next s)%nat -> settled s id ->
-    view (objs (fst (build s d)) id) = view (objs s id).
-  Proof.
-    intros s d id G D Hid S. unfold build.
-    destruct (gather s d) as [[[f nx] all] |] eqn:Ga; [| reflexivity].
-    destruct (gather_spec _ _ _ _ _ G D Ga) as [Hnx [Hf _]]. cbn [fst objs].
-    assert (S1 : settled_obj (write_mtr f all (d_copied d) (g_trials (d_geom d)) id)).
-    { eapply settled_view; [symmetry; apply write_mtr_view |]. rewrite Hf by exact Hid. exact S. }
-    rewrite init_all_view_settled by exact S1. rewrite write_mtr_view. rewrite Hf by exact Hid. reflexivity.
+    intros s d G D. pose proof (build_next s d G D) as Hnext.
+    pose proof G as [Hn [Hu He]].
+    split; [lia |]. split.
+    - intros c Hc. rewrite build_never_writes by (auto; lia). apply Hu; exact Hc.
+    - intros b l Hb.
+      destruct (gather s d) as [[[f nx] given] |] eqn:Ga.
+      + destruct (gather_spec _ _ _ _ _ G D Ga) as [Hnx [Hf Hgiven]].
+        destruct (copy_all f nx given) as [[f0 nx0] all] eqn:C.
+        destruct (copy_all_spec _ _ _ _ _ _ Hgiven C) as [N0 [L0 _]].
+        rewrite (build_some _ _ _ _ _ _ _ _ Ga C) in *. cbn [fst env next] in *.
+        destruct (orig_of_app_cases _ _ _ _ Hb) as [[Hlt Ho] | [_ Hx]].
+        * eapply Forall_impl; [| exact (He _ _ Ho)]. cbn; intros; lia.
+        * inversion Hx; subst l. subst all. apply Forall_forall. intros x Hx'. apply in_seq in Hx'. lia.
+      + rewrite (build_none _ _ Ga) in *. cbn [fst env next] in *.
+        destruct (orig_of_app_cases _ _ _ _ Hb) as [[Hlt Ho] | [_ Hx]]; [exact (He _ _ Ho) | discriminate].
   Qed.
 
   (* ---------------------------------------------------------------- simulation of the twin *)
@@ -424,27 +387,12 @@ Section Guarded.
   Definition sim (F M : state) : Prop :=
     good F /\ good M /\ List.length (env F) = List.length (env M) /\ kept_rel F M.
 
-  Lemma vrel_summary : forall F M lF lM, vrel F M lF lM ->
-    map (fun i => view (objs F i)) lF = map (fun i => view (objs M i)) lM.
-  Proof. intros F M lF lM H; induction H; cbn; [reflexivity | f_equal; assumption]. Qed.
-
-  Lemma vrel_frame : forall F M F' M' lF lM,
-    (forall a, In a lF -> view (objs F' a) = view (objs F a)) ->
-    (forall b, In b lM -> view (objs M' b) = view (objs M b)) ->
-    vrel F M lF lM -> vrel F' M' lF lM.
-  Proof.
-    intros F M F' M' lF lM HF HM H; induction H as [| a b ra rb Hab Hr IH]; [constructor |].
-    constructor.
-    - rewrite HF, HM by (left; reflexivity). exact Hab.
-    - apply IH; intros; [apply HF | apply HM]; right; assumption.
-  Qed.
-
-  Lemma origs_of_rel : forall F M bs, kept_rel F M -> List.length (env F) = List.length (env M) ->
+  Lemma origs_of_rel : forall F M bs, kept_rel F M ->
     Forall (fun b => keep b = true /\ (b < List.length (env F))%nat) bs ->
     (origs_of (env F) bs = None /\ origs_of (env M) bs = None) \/
     (exists lF lM, origs_of (env F) bs = Some lF /\ origs_of (env M) bs = Some lM /\ vrel F M lF lM).
   Proof.
-    intros F M bs K L H; induction H as [| b r [Hk Hb] Hr IH]; cbn.
+    intros F M bs K H; induction H as [| b r [Hk Hb] Hr IH]; cbn.
     - right; exists [], []; repeat split; constructor.
     - destruct (K b Hk Hb) as [[A B] | [lF [lM [A [B V]]]]].
       + left; rewrite A, B; auto.
@@ -453,32 +401,30 @@ Section Guarded.
         * right; rewrite C, D. exists (lF ++ rF), (lM ++ rM); repeat split. apply Forall2_app; assumption.
   Qed.
 
-  (** copies of related lists are related *)
+  (** sustained copies of related lists: both fail, or both succeed with related copies *)
   Lemma copy_rel : forall lF lM fF fM nF nM k, Forall2 (fun a b => view (fF a) = view (fM b)) lF lM ->
     Forall (fun i => (i < nF)%nat) lF -> Forall (fun i => (i < nM)%nat) lM ->
-    Forall (fun i => settled_obj (fF i)) lF ->
-    exists fF' nF' cF fM' nM' cM,
+    (copy_sustain fF nF lF k = None /\ copy_sustain fM nM lM k = None) \/
+    (exists fF' nF' cF fM' nM' cM,
       copy_sustain fF nF lF k = Some (fF', nF', cF) /\ copy_sustain fM nM lM k = Some (fM', nM', cM) /\
-      Forall2 (fun a b => view (fF' a) = view (fM' b)) cF cM.
+      Forall2 (fun a b => view (fF' a) = view (fM' b)) cF cM).
   Proof.
     intros lF lM fF fM nF nM k H; revert lM fF fM nF nM H.
-    induction lF as [| a ra IH]; intros lM fF fM nF nM H HF HM HS; inversion H; subst.
-    - exists fF, nF, [], fM, nM, []. repeat split; constructor.
+    induction lF as [| a ra IH]; intros lM fF fM nF nM H HF HM; inversion H; subst.
+    - right. exists fF, nF, [], fM, nM, []. repeat split; constructor.
     - rename l' into rb. rename y into b.
-      inversion HF; subst. inversion HM; subst. inversion HS; subst.
-      pose proof (sustain_view _ _ k H2) as Sv.
+      inversion HF; subst. inversion HM; subst.
+      pose proof (sustain_view _ _ k H2) as Sv. cbn [copy_sustain].
       destruct (sustain_within_block (fF a) k) as [oa |] eqn:Sa;
-        [| exfalso; eapply sustain_some_of_settled; eauto].
-      destruct (sustain_within_block (fM b) k) as [ob |] eqn:Sb; [| contradiction].
-      destruct (IH rb (upd fF nF oa) (upd fM nM ob) (S nF) (S nM)) as [fF' [nF' [cF [fM' [nM' [cM [CF [CM R]]]]]]]].
+        destruct (sustain_within_block (fM b) k) as [ob |] eqn:Sb; try contradiction; [| left; auto].
+      destruct (IH rb (upd fF nF oa) (upd fM nM ob) (S nF) (S nM)) as [[CF CM] | [fF' [nF' [cF [fM' [nM' [cM [CF [CM R]]]]]]]]].
       + eapply Forall2_impl_in; [| exact H4]. intros x y Hx Hy Hv. cbn in Hv.
         rewrite Forall_forall in H5, H7.
         rewrite !upd_other; [exact Hv | |]; [specialize (H7 y Hy) | specialize (H5 x Hx)]; lia.
       + eapply Forall_impl; [| exact H5]; cbn; intros; lia.
       + eapply Forall_impl; [| exact H7]; cbn; intros; lia.
-      + rewrite Forall_forall in *. intros x Hx. rewrite upd_other; [apply H9; exact Hx |].
-        specialize (H5 x Hx); lia.
-      + exists fF', nF', (nF :: cF), fM', nM', (nM :: cM). cbn. rewrite Sa, Sb, CF, CM. repeat split.
+      + left. rewrite CF, CM; auto.
+      + right. exists fF', nF', (nF :: cF), fM', nM', (nM :: cM). rewrite CF, CM. repeat split.
         constructor; [| exact R].
         destruct (copy_sustain_spec _ _ _ _ _ _ _ (Forall_impl _ (fun x (h : (x < nF)%nat) => Nat.lt_lt_succ_r _ _ h) H5) CF)
           as [_ [_ [FF _]]].
@@ -487,45 +433,33 @@ Section Guarded.
         rewrite FF, FM by lia. rewrite !upd_same. exact Sv.
   Qed.
 
-  (** two good states agree on the view of a settled user object *)
-  Lemma user_view_eq : forall F M c, user_ok F -> user_ok M -> (c < n)%nat -> settled F c -> settled M c ->
-    view (objs F c) = view (objs M c).
-  Proof.
-    intros F M c HF HM Hc SF SM.
-    destruct (HF c Hc) as [K1 [Kk1 [T1 W1]]]. destruct (HM c Hc) as [K2 [Kk2 [T2 W2]]].
-    apply view_eq_fields; try congruence.
-    unfold settled, settled_obj in SF, SM. rewrite K1 in SF. rewrite K2 in SM.
-    destruct W1 as [W1 | [Hw W1]]; destruct W2 as [W2 | [Hw2 W2]]; try congruence.
-    - exfalso. apply (SF Hw2). exact W1.
-    - exfalso. apply (SM Hw). exact W2.
-  Qed.
-
-  (** the combined lists of a kept construction are related *)
+  (** the lists handed to [_create] by a kept construction are related *)
   Lemma gather_rel : forall F M d, sim F M -> desc_ok d ->
     Forall (fun b => keep b = true /\ (b < List.length (env F))%nat) (deps d) ->
     (gather F d = None /\ gather M d = None) \/
-    (exists fF nF allF fM nM allM inhF inhM,
-       gather F d = Some (fF, nF, allF) /\ gather M d = Some (fM, nM, allM) /\
-       ((allF = inhF ++ d_cs d /\ allM = inhM ++ d_cs d) \/ (allF = d_cs d ++ inhF /\ allM = d_cs d ++ inhM)) /\
-       Forall2 (fun a b => view (fF a) = view (fM b)) inhF inhM /\
-       Forall (fun a => settled_obj (fF a)) inhF /\ Forall (fun b => settled_obj (fM b)) inhM).
+    (exists fF nF gF fM nM gM,
+       gather F d = Some (fF, nF, gF) /\ gather M d = Some (fM, nM, gM) /\
+       Forall2 (fun a b => view (fF a) = view (fM b)) gF gM).
   Proof.
     intros F M d [GF [GM [L K]]] D Hd. unfold gather, deps in *.
     destruct GF as [HnF [HuF HeF]]. destruct GM as [HnM [HuM HeM]].
+    assert (Vcs : forall (fF fM : nat -> cobj), (forall id, (id < next F)%nat -> fF id = objs F id) ->
+              (forall id, (id < next M)%nat -> fM id = objs M id) ->
+              Forall2 (fun a b => view (fF a) = view (fM b)) (d_cs d) (d_cs d)).
+    { intros fF fM EF EM. unfold desc_ok in D. clear - D HuF HuM HnF HnM EF EM.
+      induction D as [| c r Hc Hr IH]; constructor; [| exact IH].
+      rewrite EF, EM by lia. rewrite HuF, HuM by exact Hc. reflexivity. }
     destruct (d_kind d) as [| i | bs | o i k |].
-    - right. exists (objs F), (next F), (d_cs d), (objs M), (next M), (d_cs d), [], [].
-      repeat split; auto; constructor.
+    - right. exists (objs F), (next F), (d_cs d), (objs M), (next M), (d_cs d). repeat split. apply Vcs; auto.
     - inversion Hd as [| ? ? [Hk Hb] _]; subst.
       destruct (K i Hk Hb) as [[A B] | [lF [lM [A [B V]]]]].
       + left; rewrite A, B; auto.
-      + right. rewrite A, B. exists (objs F), (next F), (lF ++ d_cs d), (objs M), (next M), (lM ++ d_cs d), lF, lM.
-        repeat split; auto. * apply (HeF _ _ A). * apply (HeM _ _ B).
-    - destruct (origs_of_rel F M bs K L Hd) as [[A B] | [lF [lM [A [B V]]]]].
+      + right. rewrite A, B. exists (objs F), (next F), (lF ++ d_cs d), (objs M), (next M), (lM ++ d_cs d).
+        repeat split. apply Forall2_app; [exact V | apply Vcs; auto].
+    - destruct (origs_of_rel F M bs K Hd) as [[A B] | [lF [lM [A [B V]]]]].
       + left; rewrite A, B; auto.
-      + right. rewrite A, B. exists (objs F), (next F), (d_cs d ++ lF), (objs M), (next M), (d_cs d ++ lM), lF, lM.
-        repeat split; auto.
-        * apply (origs_of_ok F bs lF HeF A).
-        * apply (origs_of_ok M bs lM HeM B).
+      + right. rewrite A, B. exists (objs F), (next F), (d_cs d ++ lF), (objs M), (next M), (d_cs d ++ lM).
+        repeat split. apply Forall2_app; [apply Vcs; auto | exact V].
     - inversion Hd as [| ? ? [Hko Hbo] Hd']; subst. inversion Hd' as [| ? ? [Hki Hbi] _]; subst.
       destruct (K o Hko Hbo) as [[A B] | [loF [loM [A [B Vo]]]]].
       + left; rewrite A, B; auto.
@@ -533,37 +467,37 @@ Section Guarded.
         destruct (K i Hki Hbi) as [[A2 B2] | [liF [liM [A2 [B2 Vi]]]]].
         * left; rewrite A2, B2; auto.
         * rewrite A2, B2.
-          destruct (HeF _ _ A) as [SoF BoF]. destruct (HeM _ _ B) as [SoM BoM].
-          destruct (HeF _ _ A2) as [SiF BiF]. destruct (HeM _ _ B2) as [SiM BiM].
-          destruct (copy_rel loF loM (objs F) (objs M) (next F) (next M) k Vo BoF BoM SoF)
-            as [fF' [nF' [cF [fM' [nM' [cM [CF [CM R]]]]]]]].
-          rewrite CF, CM. right.
-          destruct (copy_sustain_spec _ _ _ _ _ _ _ BoF CF) as [_ [_ [FF SF]]].
-          destruct (copy_sustain_spec _ _ _ _ _ _ _ BoM CM) as [_ [_ [FM SM]]].
-          exists fF', nF', (cF ++ liF ++ d_cs d), fM', nM', (cM ++ liM ++ d_cs d), (cF ++ liF), (cM ++ liM).
-          repeat split; auto.
-          -- left; rewrite !app_assoc; auto.
-          -- apply Forall2_app; [exact R |].
-             eapply Forall2_impl_in; [| exact Vi]. intros a b Ha Hb Hv. cbn in Hv.
-             rewrite Forall_forall in BiF, BiM. rewrite FF, FM by auto. exact Hv.
-          -- apply Forall_app; split.
-             ++ clear - SoF SF. induction SF as [| a c ra rc Hs Hr IH]; [constructor |].
-                inversion SoF; subst. constructor; [| apply IH; assumption].
-                eapply sustain_settled; [| exact Hs]. assumption.
-             ++ rewrite Forall_forall in *. intros x Hx. rewrite FF by auto. apply SiF; exact Hx.
-          -- apply Forall_app; split.
-             ++ clear - SoM SM. induction SM as [| a c ra rc Hs Hr IH]; [constructor |].
-                inversion SoM; subst. constructor; [| apply IH; assumption].
-                eapply sustain_settled; [| exact Hs]. assumption.
-             ++ rewrite Forall_forall in *. intros x Hx. rewrite FM by auto. apply SiM; exact Hx.
+          pose proof (HeF _ _ A) as BoF. pose proof (HeM _ _ B) as BoM.
+          pose proof (HeF _ _ A2) as BiF. pose proof (HeM _ _ B2) as BiM.
+          destruct (copy_rel loF loM (objs F) (objs M) (next F) (next M) k Vo BoF BoM)
+            as [[CF CM] | [fF' [nF' [cF [fM' [nM' [cM [CF [CM R]]]]]]]]].
+          -- left. rewrite CF, CM; auto.
+          -- rewrite CF, CM. right.
+             destruct (copy_sustain_spec _ _ _ _ _ _ _ BoF CF) as [_ [_ [FF _]]].
+             destruct (copy_sustain_spec _ _ _ _ _ _ _ BoM CM) as [_ [_ [FM _]]].
+             exists fF', nF', (cF ++ liF ++ d_cs d), fM', nM', (cM ++ liM ++ d_cs d).
+             repeat split. apply Forall2_app; [exact R | apply Forall2_app].
+             ++ eapply Forall2_impl_in; [| exact Vi]. intros a b Ha Hb Hv. cbn in Hv.
+                rewrite Forall_forall in BiF, BiM. rewrite FF, FM by auto. exact Hv.
+             ++ apply Vcs; auto.
     - left; auto.
+  Qed.
+
+  Lemma vrel_frame : forall F M F' M' lF lM,
+    (forall a, In a lF -> objs F' a = objs F a) -> (forall b, In b lM -> objs M' b = objs M b) ->
+    vrel F M lF lM -> vrel F' M' lF lM.
+  Proof.
+    intros F M F' M' lF lM HF HM H; induction H as [| a b ra rb Hab Hr IH]; [constructor |].
+    constructor.
+    - rewrite HF, HM by (left; reflexivity). exact Hab.
+    - apply IH; intros; [apply HF | apply HM]; right; assumption.
   Qed.
 
   Lemma kept_rel_frame : forall F M F' M' x y,
     good F -> good M -> List.length (env F) = List.length (env M) -> kept_rel F M ->
     env F' = env F ++ [x] -> env M' = env M ++ [y] ->
-    (forall id, (id < next F)%nat -> settled F id -> view (objs F' id) = view (objs F id)) ->
-    (forall id, (id < next M)%nat -> settled M id -> view (objs M' id) = view (objs M id)) ->
+    (forall id, (id < next F)%nat -> objs F' id = objs F id) ->
+    (forall id, (id < next M)%nat -> objs M' id = objs M id) ->
     (keep (List.length (env F)) = true ->
        (x = None /\ y = None) \/ (exists lF lM, x = Some lF /\ y = Some lM /\ vrel F' M' lF lM)) ->
     kept_rel F' M'.
@@ -575,7 +509,7 @@ Section Guarded.
       destruct (K b Hk Hlt) as [[A B] | [lF [lM [A [B V]]]]]; [left; auto | right].
       exists lF, lM; repeat split; auto.
       destruct GF as [_ [_ HeF]]. destruct GM as [_ [_ HeM]].
-      destruct (HeF _ _ A) as [SF BF]. destruct (HeM _ _ B) as [SM BM].
+      pose proof (HeF _ _ A) as BF. pose proof (HeM _ _ B) as BM.
       rewrite Forall_forall in *.
       eapply vrel_frame; [| | exact V]; intros; [apply FrF | apply FrM]; auto.
     - assert (b = List.length (env F)) by lia. subst b.
@@ -589,51 +523,42 @@ Section Guarded.
     Forall (fun b => keep b = true /\ (b < List.length (env F))%nat) (deps d) ->
     sim (fst (build F d)) (fst (build M d)) /\ snd (build F d) = snd (build M d).
   Proof.
-    intros F M d S D Hd.
-    pose proof S as [GF [GM [L K]]].
+    intros F M d Sm D Hd.
+    pose proof Sm as [GF [GM [L K]]].
     pose proof (build_good F d GF D) as GF'. pose proof (build_good M d GM D) as GM'.
-    destruct (gather_rel F M d S D Hd) as [[A B] | [fF [nF [allF [fM [nM [allM [inhF [inhM [A [B [Sp [V [SF SM]]]]]]]]]]]]]].
-    - (* both constructions fail *)
-      assert (EF : build F d = ({| objs := objs F; next := next F; env := env F ++ [None] |}, None)) by (unfold build; rewrite A; reflexivity).
-      assert (EM : build M d = ({| objs := objs M; next := next M; env := env M ++ [None] |}, None)) by (unfold build; rewrite B; reflexivity).
-      rewrite EF, EM in *. cbn [fst snd] in *. split; [| reflexivity].
+    assert (FrF : forall id, (id < next F)%nat -> objs (fst (build F d)) id = objs F id)
+      by (intros; apply build_never_writes; auto).
+    assert (FrM : forall id, (id < next M)%nat -> objs (fst (build M d)) id = objs M id)
+      by (intros; apply build_never_writes; auto).
+    destruct (gather_rel F M d Sm D Hd) as [[A B] | [fF [nF [gF [fM [nM [gM [A [B V]]]]]]]]].
+    - rewrite (build_none _ _ A), (build_none _ _ B) in *. cbn [fst snd] in *. split; [| reflexivity].
       split; [exact GF' |]. split; [exact GM' |]. split; [cbn; rewrite !app_length; cbn; lia |].
       apply (kept_rel_frame F M _ _ None None GF GM L K);
-        [reflexivity | reflexivity | intros; reflexivity | intros; reflexivity | intros _; left; auto].
-    - set (g := d_geom d) in *.
-      set (f2F := init_all (write_mtr fF allF (d_copied d) (g_trials g)) allF g).
-      set (f2M := init_all (write_mtr fM allM (d_copied d) (g_trials g)) allM g).
-      assert (EF : build F d = ({| objs := f2F; next := nF; env := env F ++ [Some allF] |},
-                                Some (map (fun i => view (f2F i)) allF))) by (unfold build; rewrite A; reflexivity).
-      assert (EM : build M d = ({| objs := f2M; next := nM; env := env M ++ [Some allM] |},
-                                Some (map (fun i => view (f2M i)) allM))) by (unfold build; rewrite B; reflexivity).
-      (* the views of the two new lists agree entry by entry *)
-      assert (Vinh : Forall2 (fun a b => view (f2F a) = view (f2M b)) inhF inhM).
-      { eapply Forall2_impl_in; [| exact V]. intros a b Ha Hb Hv. cbn in Hv.
-        rewrite Forall_forall in SF, SM.
-        unfold f2F, f2M.
-        rewrite !init_all_view_settled, !write_mtr_view; auto;
-          (eapply settled_view; [symmetry; apply write_mtr_view |]); auto. }
-      assert (Vcs : Forall2 (fun a b => view (f2F a) = view (f2M b)) (d_cs d) (d_cs d)).
-      { destruct D as [Hcs _]. rewrite EF in GF'. rewrite EM in GM'. cbn [fst] in GF', GM'.
-        destruct GF' as [_ [HuF' _]]. destruct GM' as [_ [HuM' _]].
-        assert (Hin : forall c, In c (d_cs d) -> view (f2F c) = view (f2M c)).
-        { intros c Hc. rewrite Forall_forall in Hcs.
-          apply (user_view_eq {| objs := f2F; next := nF; env := env F ++ [Some allF] |}
-                              {| objs := f2M; next := nM; env := env M ++ [Some allM] |} c HuF' HuM' (Hcs c Hc));
-            unfold settled; cbn [objs]; apply init_all_in_settles;
-            destruct Sp as [[-> ->] | [-> ->]]; apply in_or_app; auto. }
-        clear - Hin. induction (d_cs d) as [| c r IH]; constructor; [apply Hin; left; auto | apply IH; intros; apply Hin; right; auto]. }
+        [reflexivity | reflexivity | exact FrF | exact FrM | intros _; left; auto].
+    - destruct (gather_spec _ _ _ _ _ GF D A) as [_ [_ HgF]].
+      destruct (gather_spec _ _ _ _ _ GM D B) as [_ [_ HgM]].
+      destruct (copy_all fF nF gF) as [[f0F n0F] allF] eqn:CF.
+      destruct (copy_all fM nM gM) as [[f0M n0M] allM] eqn:CM.
+      destruct (copy_all_spec _ _ _ _ _ _ HgF CF) as [_ [_ [_ EF]]].
+      destruct (copy_all_spec _ _ _ _ _ _ HgM CM) as [_ [_ [_ EM]]].
+      rewrite (build_some _ _ _ _ _ _ _ _ A CF), (build_some _ _ _ _ _ _ _ _ B CM) in *.
+      set (g := d_geom d) in *.
+      set (f2F := init_all (write_mtr f0F allF (d_copied d) (g_trials g)) allF g) in *.
+      set (f2M := init_all (write_mtr f0M allM (d_copied d) (g_trials g)) allM g) in *.
+      cbn [fst snd] in *.
+      (* the copies are related before initialisation ... *)
+      assert (V0 : Forall2 (fun a b => view (f0F a) = view (f0M b)) allF allM).
+      { eapply (Forall2_transport _ _ _ _ gF gM allF allM); [| exact V | exact EF | exact EM].
+        intros a b c e Hv H1 H2. cbn in *. rewrite H1, H2. exact Hv. }
+      (* ... and after it *)
       assert (Vall : Forall2 (fun a b => view (f2F a) = view (f2M b)) allF allM).
-      { destruct Sp as [[-> ->] | [-> ->]]; apply Forall2_app; assumption. }
-      rewrite EF, EM in *. cbn [fst snd] in *. split.
+      { eapply Forall2_impl_in; [| exact V0]. intros a b Ha Hb Hv. cbn in Hv. unfold f2F, f2M.
+        rewrite !init_all_in by assumption. apply init_within_view. rewrite !write_mtr_view. exact Hv. }
+      split.
       + split; [exact GF' |]. split; [exact GM' |]. split; [cbn; rewrite !app_length; cbn; lia |].
-        apply (kept_rel_frame F M _ _ (Some allF) (Some allM) GF GM L K); [reflexivity | reflexivity | | |].
-        * intros id Hid Sid. cbn [objs]. pose proof (build_frame F d id GF D Hid Sid) as Fr.
-          rewrite EF in Fr. exact Fr.
-        * intros id Hid Sid. cbn [objs]. pose proof (build_frame M d id GM D Hid Sid) as Fr.
-          rewrite EM in Fr. exact Fr.
-        * intros _. right. exists allF, allM. repeat split. exact Vall.
+        apply (kept_rel_frame F M _ _ (Some allF) (Some allM) GF GM L K);
+          [reflexivity | reflexivity | exact FrF | exact FrM |].
+        intros _. right. exists allF, allM. repeat split. exact Vall.
       + f_equal. apply (Forall2_map_eq (fun i => view (f2F i)) (fun i => view (f2M i))). exact Vall.
   Qed.
 
@@ -641,20 +566,18 @@ Section Guarded.
   Lemma build_sim_skip : forall F M d, sim F M -> desc_ok d -> keep (List.length (env F)) = false ->
     sim (fst (build F d)) (fst (build M (skip_of d))).
   Proof.
-    intros F M d S D Hk. pose proof S as [GF [GM [L K]]].
+    intros F M d Sm D Hk. pose proof Sm as [GF [GM [L K]]].
     pose proof (build_good F d GF D) as GF'.
     assert (EM : build M (skip_of d) = ({| objs := objs M; next := next M; env := env M ++ [None] |}, None)) by reflexivity.
     rewrite EM. cbn [fst].
     assert (GM' : good {| objs := objs M; next := next M; env := env M ++ [None] |}).
     { destruct GM as [HnM [HuM HeM]]. split; [exact HnM |]. split; [exact HuM |].
       intros b l Hb. cbn [env] in Hb.
-      destruct (orig_of_app_cases _ _ _ _ Hb) as [[_ Ho] | [_ Hx]]; [apply HeM in Ho; exact Ho | discriminate]. }
+      destruct (orig_of_app_cases _ _ _ _ Hb) as [[_ Ho] | [_ Hx]]; [exact (HeM _ _ Ho) | discriminate]. }
     split; [exact GF' |]. split; [exact GM' |].
-    assert (EnvF : exists x, env (fst (build F d)) = env F ++ [x]).
-    { unfold build. destruct (gather F d) as [[[f nx] all] |]; cbn; eauto. }
-    destruct EnvF as [x Ex]. split; [rewrite Ex; cbn; rewrite !app_length; cbn; lia |].
+    destruct (build_env F d) as [x Ex]. split; [rewrite Ex; cbn; rewrite !app_length; cbn; lia |].
     apply (kept_rel_frame F M _ _ x None GF GM L K); [exact Ex | reflexivity | | |].
-    - intros id Hid Sid. apply build_frame; auto.
+    - intros id Hid. apply build_never_writes; auto.
     - intros; reflexivity.
     - intros Hk'. congruence.
   Qed.
@@ -662,6 +585,7 @@ Section Guarded.
   Lemma run_cons : forall s d r, run s (d :: r) =
     (fst (run (fst (build s d)) r), snd (build s d) :: snd (run (fst (build s d)) r)).
   Proof. intros s d r; cbn. destruct (build s d) as [s1 o]. cbn [fst snd]. destruct (run s1 r) as [s2 os]. reflexivity. Qed.
+
 
   Lemma run_sim : forall ds j F M, sim F M -> List.length (env F) = j ->
     (forall d, In d ds -> desc_ok d) -> wf_from n j ds = true -> closed_from keep j ds = true ->
@@ -674,8 +598,6 @@ Section Guarded.
     apply andb_true_iff in Hcl; destruct Hcl as [Hcl1 Hcl].
     assert (D : desc_ok d) by (apply Hok; left; reflexivity).
     rewrite !run_cons. cbn [snd].
-    assert (Lenv : forall s x, exists y, env (fst (build s x)) = env s ++ [y]).
-    { intros s x; unfold build. destruct (gather s x) as [[[f nx] all] |]; cbn; eauto. }
     destruct (keep j) eqn:Kj.
     - assert (Hd : Forall (fun b => keep b = true /\ (b < List.length (env F))%nat) (deps d)).
       { rewrite Forall_forall. intros b Hb. rewrite forallb_forall in Hcl1, Hdeps. split; [apply Hcl1; exact Hb |].
@@ -683,13 +605,13 @@ Section Guarded.
       destruct (build_sim_keep F M d Sm D Hd) as [Sm' E].
       destruct i as [| i]; [cbn; rewrite E; reflexivity |]. cbn [nth_error].
       apply IH with (j := S j); auto.
-      + destruct (Lenv F d) as [y Ey]. rewrite Ey, app_length; cbn; lia.
+      + destruct (build_env F d) as [y Ey]. rewrite Ey, app_length; cbn; lia.
       + intros; apply Hok; right; assumption.
       + replace (S j + i)%nat with (j + S i)%nat by lia. exact Hi.
     - destruct i as [| i]; [replace (j + 0)%nat with j in Hi by lia; congruence |]. cbn [nth_error].
       apply IH with (j := S j); auto.
       + apply build_sim_skip; auto. rewrite Hj; exact Kj.
-      + destruct (Lenv F d) as [y Ey]. rewrite Ey, app_length; cbn; lia.
+      + destruct (build_env F d) as [y Ey]. rewrite Ey, app_length; cbn; lia.
       + intros; apply Hok; right; assumption.
       + replace (S j + i)%nat with (j + S i)%nat by lia. exact Hi.
   Qed.
@@ -699,11 +621,18 @@ Section Guarded.
     split; [apply good_init |]. split; [apply good_init |]. split; [reflexivity |].
     intros b _ Hb. cbn in Hb. lia.
   Qed.
-End Guarded.
 
-(** the guard: a constraint object that has a [within_block] is handed only to constructions of one geometry *)
-Definition consistent (user : list cobj) (gc : nat -> geom) (ds : list desc) : Prop :=
-  forall d, In d ds -> forall c, In c (d_cs d) -> has_within (c_kind (nth c user default_obj)) = true -> d_geom d = gc c.
+  (** whatever is built, the user's objects are never written *)
+  Lemma run_good : forall ds j s, good s -> (forall d, In d ds -> desc_ok d) -> wf_from n j ds = true ->
+    good (fst (run s ds)).
+  Proof.
+    induction ds as [| d r IH]; intros j s G Hok Hwf; [exact G |].
+    rewrite run_cons. cbn [fst]. cbn in Hwf. apply andb_true_iff in Hwf; destruct Hwf as [_ Hwf].
+    apply (IH (S j)); auto.
+    - apply build_good; auto. apply Hok; left; reflexivity.
+    - intros; apply Hok; right; assumption.
+  Qed.
+End Independent.
 
 Lemma wf_from_cs : forall nuser ds j d, wf_from nuser j ds = true -> In d ds -> Forall (fun c => (c < nuser)%nat) (d_cs d).
 Proof.
@@ -713,16 +642,16 @@ Proof.
   rewrite Forall_forall. intros c Hc. rewrite forallb_forall in H1. apply Nat.ltb_lt. apply H1; exact Hc.
 Qed.
 
-Theorem history_independent_guarded : forall (user : list cobj) (gc : nat -> geom) (ds : list desc) (keep : nat -> bool) (i : nat),
-  wf (List.length user) ds = true -> consistent user gc ds -> closed keep ds = true -> keep i = true ->
+
+(** C18, unguarded: every kept block gets the summary it gets when only the kept blocks are built *)
+Theorem history_independent : forall (user : list cobj) (ds : list desc) (keep : nat -> bool) (i : nat),
+  wf (List.length user) ds = true -> closed keep ds = true -> keep i = true ->
   nth_error (snd (run (init_state user) ds)) i = nth_error (snd (run (init_state user) (mask keep ds))) i.
 Proof.
-  intros user gc ds keep i Hwf Hc Hcl Hk. unfold mask.
-  apply (run_sim user gc keep ds 0%nat (init_state user) (init_state user)); auto.
+  intros user ds keep i Hwf Hcl Hk. unfold mask.
+  apply (run_sim user keep ds 0%nat (init_state user) (init_state user)); auto.
   - apply sim_init.
-  - intros d Hd. split.
-    + eapply wf_from_cs; eauto.
-    + rewrite Forall_forall. intros c Hcin Hw. eapply Hc; eauto.
+  - intros d Hd. eapply wf_from_cs; eauto.
 Qed.
 
 Lemma closure_keeps : forall ds fuel set x, In x set -> In x (closure ds fuel set).
@@ -737,50 +666,57 @@ Proof.
   apply closure_keeps. left; reflexivity.
 Qed.
 
+
 (** the form used by the check: the summary of a block built in the shared program equals that of its fresh twin *)
-Corollary shared_eq_fresh_guarded : forall user gc ds i,
-  wf (List.length user) ds = true -> consistent user gc ds -> closed (keep_of ds i) ds = true ->
+Corollary shared_eq_fresh : forall user ds i,
+  wf (List.length user) ds = true -> closed (keep_of ds i) ds = true ->
   shared_summary user ds i = fresh_summary user ds i.
 Proof.
-  intros user gc ds i Hwf Hc Hcl. unfold shared_summary, fresh_summary.
-  rewrite (history_independent_guarded user gc ds (keep_of ds i) i Hwf Hc Hcl (keep_of_self ds i)). reflexivity.
+  intros user ds i Hwf Hcl. unfold shared_summary, fresh_summary.
+  rewrite (history_independent user ds (keep_of ds i) i Hwf Hcl (keep_of_self ds i)). reflexivity.
 Qed.
 
-(** constraints without [within_block] can be shared freely: with no such object the guard is empty *)
-Corollary shared_eq_fresh_no_within : forall user ds i,
-  wf (List.length user) ds = true -> Forall (fun o => has_within (c_kind o) = false) user ->
-  closed (keep_of ds i) ds = true ->
-  shared_summary user ds i = fresh_summary user ds i.
+(** the user's objects after any build sequence are the objects the user created *)
+Theorem user_objects_never_written : forall (user : list cobj) (ds : list desc) (c : nat),
+  wf (List.length user) ds = true -> (c < List.length user)%nat ->
+  objs (fst (run (init_state user) ds)) c = fresh (nth c user default_obj).
 Proof.
-  intros user ds i Hwf Hn Hcl.
-  apply (shared_eq_fresh_guarded user (fun _ => wit_g2) ds i Hwf); [| exact Hcl].
-  intros d Hd c Hc Hw. exfalso.
-  destruct (lt_dec c (List.length user)) as [Hlt | Hge].
-  - rewrite Forall_forall in Hn. rewrite (Hn (nth c user default_obj)) in Hw; [discriminate | apply nth_In; exact Hlt].
-  - rewrite nth_overflow in Hw by lia. discriminate.
+  intros user ds c Hwf Hc.
+  assert (G : good user (fst (run (init_state user) ds))).
+  { apply (run_good user ds 0%nat); auto; [apply good_init |]. intros d Hd. eapply wf_from_cs; eauto. }
+  destruct G as [_ [Hu _]]. apply Hu; exact Hc.
 Qed.
 
-(** a guarded example with shared objects: the same AtMostKInARow object in two blocks of one geometry,
-    one of them repeated, and an ExactlyK object on the outer block of a Nest *)
+(** the statement that was the most one could prove before the repair (geometry guard) is a special case *)
+Definition consistent (user : list cobj) (gc : nat -> geom) (ds : list desc) : Prop :=
+  forall d, In d ds -> forall c, In c (d_cs d) -> has_within (c_kind (nth c user default_obj)) = true -> d_geom d = gc c.
+
+Corollary history_independent_guarded : forall (user : list cobj) (gc : nat -> geom) (ds : list desc) (keep : nat -> bool) (i : nat),
+  wf (List.length user) ds = true -> consistent user gc ds -> closed keep ds = true -> keep i = true ->
+  nth_error (snd (run (init_state user) ds)) i = nth_error (snd (run (init_state user) (mask keep ds))) i.
+Proof. intros user gc ds keep i Hwf _ Hcl Hk. apply history_independent; assumption. Qed.
+
+(** an example with heavy sharing: one AtMostKInARow object in a 2-trial block, in a 4-trial block, and in the
+    Repeat of the first; an ExactlyK object on the outer block of a Nest (copied and sustained: geometry and [k]
+    doubled) and directly in the 4-trial block; a MinimumTrials object *)
 Definition ex_user : list cobj :=
   [ {| c_kind := KAtMost; c_within := None; c_k := 1; c_trials := 0; c_mtr := None |};
     {| c_kind := KExactlyK; c_within := None; c_k := 1; c_trials := 0; c_mtr := None |};
     {| c_kind := KMinTrials; c_within := None; c_k := 0; c_trials := 4; c_mtr := None |} ].
 Definition ex_prog : list desc :=
   [ {| d_kind := DLeaf; d_geom := wit_g2; d_cs := [0%nat; 1%nat]; d_copied := [] |};
-    {| d_kind := DLeaf; d_geom := wit_g2; d_cs := [0%nat]; d_copied := [] |};
-    {| d_kind := DRepeat 0; d_geom := wit_g4; d_cs := [2%nat]; d_copied := [] |};
+    {| d_kind := DLeaf; d_geom := wit_g4; d_cs := [0%nat; 1%nat]; d_copied := [] |};
+    {| d_kind := DRepeat 0; d_geom := wit_g4; d_cs := [2%nat; 0%nat]; d_copied := [] |};
     {| d_kind := DNest 0 1 2; d_geom := wit_g4; d_cs := []; d_copied := [] |} ].
 
-Lemma ex_guarded :
-  wf (List.length ex_user) ex_prog = true /\ consistent ex_user (fun _ => wit_g2) ex_prog /\
-  closed (keep_of ex_prog 3) ex_prog = true /\
+Lemma ex_shared :
+  wf (List.length ex_user) ex_prog = true /\ closed (keep_of ex_prog 3) ex_prog = true /\
+  closed (keep_of ex_prog 2) ex_prog = true /\
+  shared_summary ex_user ex_prog 1 = Some [(KAtMost, Some wit_g4, 1, 0); (KExactlyK, Some wit_g4, 1, 0)] /\
+  shared_summary ex_user ex_prog 2 =
+    Some [(KAtMost, Some wit_g2, 1, 0); (KExactlyK, Some wit_g2, 1, 0); (KMinTrials, None, 0, 4); (KAtMost, Some wit_g4, 1, 0)] /\
   shared_summary ex_user ex_prog 3 =
-    Some [(KAtMost, Some (gsustain wit_g2 2), 1, 0); (KExactlyK, Some (gsustain wit_g2 2), 2, 0); (KAtMost, Some wit_g2, 1, 0)].
-Proof.
-  split; [reflexivity |]. split; [| split; reflexivity].
-  intros d Hd c Hc Hw. cbn in Hd.
-  destruct Hd as [<- | [<- | [<- | [<- | []]]]]; cbn in Hc |- *; try reflexivity.
-  - destruct Hc as [<- | []]. cbn in Hw. discriminate.
-  - destruct Hc.
-Qed.
+    Some [(KAtMost, Some (gsustain wit_g2 2), 1, 0); (KExactlyK, Some (gsustain wit_g2 2), 2, 0);
+          (KAtMost, Some wit_g4, 1, 0); (KExactlyK, Some wit_g4, 1, 0)] /\
+  fresh_summary ex_user ex_prog 3 = shared_summary ex_user ex_prog 3.
+Proof. vm_compute. repeat split; reflexivity. Qed.
